@@ -175,6 +175,13 @@ def call_impl(s, arg, g, cfg, acyclic, ugp, how):
         return vlib.guarded(active_vertices_connected, s, arg, g, **kw)
 
 
+def snap(s):
+    """the posted program as a string; a state that cannot be serialised (non-expression objects posted)
+    is reported as such instead of crashing the harness"""
+    r = vlib.guarded(exprio.show_state, s)
+    return ("ok", r[1]) if r[0] == "ok" else ("unserialisable-state", r[1])
+
+
 def parse_post(o):
     if o.startswith("E "):
         return ("err", ERR[int(o.split()[1])])
@@ -224,7 +231,7 @@ def correspond(ctx):
         pre = exprio.show_state(s)
         ltok = exprio.show_list(trees)
         r = call_impl(s, arg, g, cfg, acy, ugp, rng.choice(["kw", "default"]))
-        impl = ("ok", exprio.show_state(s)) if r[0] == "ok" else r
+        impl = snap(s) if r[0] == "ok" else r
         reqs.append("P %s G %s %s ST %s L %s" % (opt_tok(cfg, acy, ugp), graphcap.graph_tok(n, es), cf, pre, ltok))
         metas.append((("graph", n, tuple(es), form, opts, style, ltok), impl))
         ctx.count("form:" + form)
@@ -264,7 +271,7 @@ def correspond(ctx):
         ltok = exprio.show_list(trees)
         g = graphcap.mk_graph(h * w, graphcap.grid_edges(h, w)) if with_graph else None
         r = call_impl(s, arg, g, cfg, acy, ugp, rng.choice(["kw", "default"]))
-        impl = ("ok", exprio.show_state(s)) if r[0] == "ok" else r
+        impl = snap(s) if r[0] == "ok" else r
         gt = "G " + graphcap.graph_tok(h * w, graphcap.grid_edges(h, w)) if with_graph else "NOG"
         reqs.append("P %s %s A2 %d %d ST %s L %s" % (opt_tok(cfg, acy, ugp), gt, h, w, pre, ltok))
         metas.append((("grid", h, w, form, opts, style, with_graph, ltok), impl))
@@ -288,7 +295,7 @@ def correspond(ctx):
         pre = exprio.show_state(s)
         ltok = exprio.show_list(trees)
         r = call_impl(s, arg, None, cfg, acy, ugp, "kw")
-        impl = ("ok", exprio.show_state(s)) if r[0] == "ok" else r
+        impl = snap(s) if r[0] == "ok" else r
         reqs.append("P %s NOG %s ST %s L %s" % (opt_tok(cfg, acy, ugp), cf, pre, ltok))
         metas.append((("nograph", n, form, opts, ltok), impl))
         ctx.count("graphs:sequence-without-graph(TypeError)")
